@@ -94,7 +94,10 @@ M = [
  ("g-type-level-keeps-derive-ex", ["C04:ES-type-items-empty"], IT, "            derive_ex: false,\n            ..*self", "            derive_ex: true,\n            ..*self"),
  ("g-kinds-never-filled", ["C01:ES-kinds-filled", "C14"], IT, "    let es = DeriveEntry::from_root(attr, &item.attrs)?;\n    kinds.extend(&es);\n    let hattrs = HelperAttributes::from_attrs(\n        &item.attrs,\n        AttributeTarget::Type,\n        &kinds.without_derive_ex(),\n    )?;\n    let fields", "    let es = DeriveEntry::from_root(attr, &item.attrs)?;\n    let hattrs = HelperAttributes::from_attrs(\n        &item.attrs,\n        AttributeTarget::Type,\n        &kinds.without_derive_ex(),\n    )?;\n    let fields"),
  ("g-name-option-interpolated", ["C10"], IT, '                let name = field.member().to_string();\n                let name = name.strip_prefix("r#").unwrap_or(&name);', '                let name = field.member().to_string();\n                let name = name.strip_prefix("r#");'),
+ ("r-eq-checker-sized", ["C12:TP-unsized-helper", "C20:TP-unsized-helper"], CO, "fn _eq<T: ::core::cmp::Eq + ?::core::marker::Sized>(_this: &T) { }", "fn _eq<T: ::core::cmp::Eq>(_this: &T) { }"),
+ ("r-debug-single-ref", ["C12:TP-unsized-field", "C20:TP-unsized-field"], IT, "quote!(&&self.#member)", "quote!(&self.#member)"),
  # benign variants: every listed property must stay silent
+ ("benign-eq-checker-impl-trait", [], CO, "fn _eq<T: ::core::cmp::Eq + ?::core::marker::Sized>(_this: &T) { }", "fn _eq(_this: &(impl ::core::cmp::Eq + ?::core::marker::Sized)) { }"),
  ("benign-rename-local", [], IT, "let use_bounds = e.push_bounds_to(&mut wcb);\n    let mut ctor_args = Vec::new();\n    let mut clone_from_exprs = Vec::new();", "let use_bounds = e.push_bounds_to(&mut wcb);\n    let mut ctor_args = Vec::new();\n    let mut clone_from_exprs = Vec::new();\n    let _unused_marker = 0;"),
 ]
 BENIGN_PROPS = ["C01", "C03", "C04", "C07", "C08", "C09", "C10", "C11", "C12", "C13", "C14", "C15", "C19", "C20", "C18"]
